@@ -292,15 +292,37 @@ Definition checkIPv6 (data : bytes) : outcome bool :=
 (** ** checkRecord: the switch on the record type and [panic("invalid record
     data")].  (The name part — tokenIDFromName, ownership — belongs to
     C10-C12.)  recordtype: A = 1, CNAME = 5, SOA = 6, TXT = 16, AAAA = 28. *)
+Definition record_data_ok (typ : Z) (data : bytes) : outcome bool :=
+  if typ =? 1 then checkIPv4 data
+  else if typ =? 5 then
+    r <-! safeSplitAndCheck data;
+    Halt (match r with Some _ => true | None => false end)
+  else if typ =? 16 then Halt (len data <=? maxTXTRecordLength)
+  else if typ =? 28 then checkIPv6 data
+  else Fault.                                            (* panic("unsupported record type") *)
+
 Definition check_record_data (typ : Z) (data : bytes) : outcome unit :=
-  ok <-! (if typ =? 1 then checkIPv4 data
-          else if typ =? 5 then
-            r <-! safeSplitAndCheck data;
-            Halt (match r with Some _ => true | None => false end)
-          else if typ =? 16 then Halt (len data <=? maxTXTRecordLength)
-          else if typ =? 28 then checkIPv6 data
-          else Fault);                                   (* panic("unsupported record type") *)
+  ok <-! record_data_ok typ data;
   if ok then Halt tt else Fault.                         (* panic("invalid record data") *)
 
 Definition record_data_accepted (typ : Z) (data : bytes) : bool :=
   match check_record_data typ data with Halt _ => true | Fault => false end.
+
+(* ------------------------------------------------------------------ *)
+(** ** Observables of the correspondence check.  A test invocation of
+    [addRecord] / [setRecord] on an owned domain shows the verdict of the data
+    check: HALT = [VBool true]; FAULT "invalid record data" = [VBool false];
+    any other fault raised by the check (a native refusing its input,
+    "not a byte", "unsupported record type") = [VFault].  [isAvailable] shows
+    the verdict on a name: HALT or the later "TLD not found" = [VBool true];
+    "invalid domain name length" / "invalid domain fragment" = [VBool false];
+    a fault of [std.StringSplit] = [VFault]. *)
+Definition record_obs (typ : Z) (data : bytes) : val :=
+  match record_data_ok typ data with Halt b => VBool b | Fault => VFault end.
+
+Definition name_obs (name : bytes) : val :=
+  match safeSplitAndCheck name with
+  | Halt (Some _) => VBool true
+  | Halt None => VBool false
+  | Fault => VFault
+  end.
